@@ -159,7 +159,12 @@ def load_findings(pid: str):
 def finding_matches(entry: dict, v: dict) -> bool:
     if entry.get("status", "open") != "open":
         return False
-    if entry.get("clause") != v["clause"]:
+    clause = entry.get("clause")
+    if isinstance(clause, dict) and "any_of" in clause:
+        # one defect that shows under several clauses of the same input
+        if v["clause"] not in clause["any_of"]:
+            return False
+    elif clause != v["clause"]:
         return False
     for key, allowed in entry.get("match", {}).items():
         if key not in v["coords"]:
